@@ -331,7 +331,7 @@ OUT_ERRORS = ["strict", "replace", "ignore", "xmlcharrefreplace", "htmlentityrep
 
 
 def h_outerr(p):
-    return dict(construction=OUT_CONSTRUCTIONS[p.choose(len(OUT_CONSTRUCTIONS), "construction")], oe=["ascii", "latin-1"][p.choose(2, "output_encoding")],
+    return dict(construction=OUT_CONSTRUCTIONS[p.choose(len(OUT_CONSTRUCTIONS), "construction")], oe=["ascii", "latin-1", "utf-16", "utf-8-sig", "cp1251"][p.choose(5, "output_encoding")],
                 errors=OUT_ERRORS[p.choose(len(OUT_ERRORS), "encoding_errors")])
 
 
